@@ -33,6 +33,14 @@ def jobs(tier):
             js.append({"id": jid, "name": "trunc_sum_%s_%d" % (st, scale), "cls": "x8",
                        "prog": prog([inp(S(st)), inp(S(st)), nd("Add", [1, 2]), nd("Truncate", [3], scale_s=str(scale))]),
                        "owners": [0, 1], "outs": [2], "mode": "Simple"})
+    # several truncations in one graph (the compiler distributes truncation keys per graph, not per node): a tuple of a
+    # 2^k truncation and a general one, in both orders, of one private value and of two
+    for a, b in ((4, 5), (5, 4), (8, 3), (2, 4)):
+        for ow, outs, mode in (([0], [1], "Simple"), ([2], [0, 2], "Default")):
+            jid += 1
+            js.append({"id": jid, "name": "trunc_pair_i8_%d_%d" % (a, b), "cls": "x8", "pair": True,
+                       "prog": prog([inp(S("i8")), nd("Truncate", [1], scale_s=str(a)), nd("Truncate", [1], scale_s=str(b)), nd("CreateTuple", [2, 3])]),
+                       "owners": ow, "outs": outs, "mode": mode})
     pub = []
     for st in ("i8", "u8"):
         for scale in (2, 3, 16, 100):
@@ -59,8 +67,12 @@ def run(chk):
     def is_scalar(r):
         ins = [n for n in r["src"] if n["op"] == "Input"]
         return len(ins) == 1 and ins[0]["ty"]["k"] == "s"
+    pairids = {j["id"] for j in js if j.get("pair")}
+    pairs = [r for r in priv if r["id"] in pairids]
+    priv = [r for r in priv if r["id"] not in pairids]
     groups = [
         ([r for r in priv if is_scalar(r)], "three", "C05Trunc", "trunc3_scalar", True, runs),
+        (pairs, "three", "C05Tuple", "trunc3_pairs", True, runs),
         ([r for r in priv if not is_scalar(r)], "three", "C05Trunc", "trunc3_array", False, 60 if tier == "quick" else 2000),
         (pubr, "three", "C02Three", "public3", True, 1),
         (pubr, "single", "C01Single", "public1", True, 1),
